@@ -19,7 +19,10 @@ int amc_empty(void);
 uint8_t *amc_storage(void);
 }
 
-const char *H_NAME = "mqconc";
+#ifndef H_SUFFIX
+#define H_SUFFIX ""
+#endif
+const char *H_NAME = "mqconc" H_SUFFIX; // "_fb" = built with the __STDC_NO_ATOMICS__ fallback of atomic.h
 
 namespace {
 struct Msg {
